@@ -545,6 +545,7 @@ package server
 //@ ensures[C05,C06] conflicting_pair_rejected: err != nil ==> err == ErrorHostInUse && none(SetService) && none(RemoveService) && none(RebuildTable)
 //@ ensures[C05,C02] installed_in_one_critical_section: err == nil ==> count(SetService(_, _)) == 1 && emitted(SetService(_, s)) && count(Lock(r, lockid("server.Router.serviceLock"))) == 1 && first(Lock(r, lockid("server.Router.serviceLock")), SetService(_, _)) && first(SetService(_, _), Unlock(r, lockid("server.Router.serviceLock")))
 //@ ensures[C05] checked_and_claimed_under_one_lock: count(CheckAvail(_, _)) == 1 && emitted(CheckAvail(_, s.name)) && first(Lock(r, lockid("server.Router.serviceLock")), CheckAvail(_, _)) && first(CheckAvail(_, _), Unlock(r, lockid("server.Router.serviceLock"))) && (err == nil ==> first(CheckAvail(_, _), SetService(_, _)))
+//@ ensures[C10] rollout_commands_during_a_redeploy_survive_it: err == nil && old(haskey(r.services.services, s.name)) && old(r.services.services[s.name]) != s ==> old(r.services.services[s.name]).rolloutController == s.rolloutController && old(r.services.services[s.name]).rollout == s.rollout
 //@ ensures[C07] held_requests_follow_the_redeploy: err == nil && old(haskey(r.services.services, s.name)) && old(r.services.services[s.name]) != s ==> old(r.services.services[s.name]).active == s.active
 //@ ensures[C12,C11] snapshot_follows_the_change: last_is(Snapshot(r)) && first(Unlock(r, lockid("server.Router.serviceLock")), Snapshot(r))
 //@ ensures[C18] lock_free: !held(r.serviceLock)
